@@ -8,6 +8,8 @@ mod c11;
 #[cfg(not(feos_verif_shuttle))]
 mod c12;
 #[cfg(not(feos_verif_shuttle))]
+mod c14;
+#[cfg(not(feos_verif_shuttle))]
 mod c18;
 
 use common::*;
@@ -92,6 +94,8 @@ fn dispatch(engine: &str, opts: &Options, replay_file: Option<&str>) -> i32 {
 #[cfg(not(feos_verif_shuttle))]
 fn dispatch(engine: &str, opts: &Options, replay_file: Option<&str>) -> i32 {
     match engine {
+        "c14-loader" => go(c14::C14 { faults: false }, (3000, 300_000), opts, replay_file),
+        "c14-loader-faults" => go(c14::C14 { faults: true }, (3000, 300_000), opts, replay_file),
         "c18-debug" => {
             c18::debug_replay(replay_file.expect("--replay"));
             0
